@@ -6,6 +6,7 @@ import (
 	"sort"
 	"strings"
 
+	"connectrpc.com/conformance/internal/app/connectconformance/testsuites"
 	conformancev1 "connectrpc.com/conformance/internal/gen/proto/go/connectrpc/conformance/v1"
 	"google.golang.org/protobuf/encoding/protojson"
 	"google.golang.org/protobuf/proto"
@@ -210,6 +211,10 @@ func VerifC07Library(suites []VerifC07Suite, codes []int, mode int) VerifC07Dump
 	if err != nil {
 		return VerifC07Dump{Err: verifC07ErrClass(err.Error())}
 	}
+	return verifC07DumpOf(lib)
+}
+
+func verifC07DumpOf(lib *testCaseLibrary) VerifC07Dump {
 	var d VerifC07Dump
 	d.Perms = make([]VerifC07Perm, 0, len(lib.testCases))
 	for key, tc := range lib.testCases {
@@ -270,4 +275,68 @@ func VerifC07Parse(suites []VerifC07Suite) string {
 		return "raw-response-expected"
 	}
 	return "other"
+}
+
+// verifC07Embedded parses the embedded test suites with the real parseTestSuites.
+func verifC07Embedded() (map[string]*conformancev1.TestSuite, error) {
+	data, err := testsuites.LoadTestSuites()
+	if err != nil {
+		return nil, err
+	}
+	return parseTestSuites(data)
+}
+
+// VerifC07Corpus abstracts the embedded test suites (sorted by file name).
+func VerifC07Corpus() ([]VerifC07Suite, error) {
+	all, err := verifC07Embedded()
+	if err != nil {
+		return nil, err
+	}
+	ints := func(n int, at func(int) int32) []int {
+		out := make([]int, n)
+		for i := range out {
+			out[i] = int(at(i))
+		}
+		return out
+	}
+	var out []VerifC07Suite
+	for file, s := range all {
+		a := VerifC07Suite{
+			File: file, Name: s.Name, Mode: int(s.Mode), CVM: int(s.ConnectVersionMode),
+			Protocols: ints(len(s.RelevantProtocols), func(i int) int32 { return int32(s.RelevantProtocols[i]) }),
+			Versions:  ints(len(s.RelevantHttpVersions), func(i int) int32 { return int32(s.RelevantHttpVersions[i]) }),
+			Codecs:    ints(len(s.RelevantCodecs), func(i int) int32 { return int32(s.RelevantCodecs[i]) }),
+			Comps:     ints(len(s.RelevantCompressions), func(i int) int32 { return int32(s.RelevantCompressions[i]) }),
+			TLS:       s.ReliesOnTls, Certs: s.ReliesOnTlsClientCerts, Get: s.ReliesOnConnectGet, Limit: s.ReliesOnMessageReceiveLimit,
+			Tests: []VerifC07Test{},
+		}
+		for _, tc := range s.TestCases {
+			a.Tests = append(a.Tests, VerifC07Test{
+				Name: tc.Request.TestName, St: int(tc.Request.StreamType),
+				Service: tc.Request.GetService(), Method: tc.Request.GetMethod(),
+				RawReq: tc.Request.RawRequest != nil, RawResp: hasRawResponse(tc.Request.RequestMessages),
+				Expected: tc.ExpectedResponse != nil,
+			})
+		}
+		out = append(out, a)
+	}
+	sort.Slice(out, func(i, j int) bool { return out[i].File < out[j].File })
+	return out, nil
+}
+
+// VerifC07CorpusLibrary runs the real newTestCaseLibrary on the real embedded suites.
+func VerifC07CorpusLibrary(codes []int, mode int) VerifC07Dump {
+	all, err := verifC07Embedded()
+	if err != nil {
+		return VerifC07Dump{Err: "corpus-unparsable"}
+	}
+	cases := make([]configCase, len(codes))
+	for i, c := range codes {
+		cases[i] = VerifC07CaseOfCode(c)
+	}
+	lib, err := newTestCaseLibrary(all, cases, conformancev1.TestSuite_TestMode(mode))
+	if err != nil {
+		return VerifC07Dump{Err: verifC07ErrClass(err.Error())}
+	}
+	return verifC07DumpOf(lib)
 }
